@@ -402,18 +402,31 @@ Fixpoint no_empty_tuple (v : pv) : bool :=
   | _ => true
   end.
 
-(* string form: additionally no str key spelled like an encoded int key, and no bool keys *)
+(* string form: additionally no str key spelled like an encoded int key, no bool keys, and no string in
+   which a high surrogate is directly followed by a low surrogate (JSON text reads the two escapes back
+   as one character) *)
+Definition is_high (c : N) : bool := (N.leb 55296 c && N.leb c 56319)%N.
+Definition is_low (c : N) : bool := (N.leb 56320 c && N.leb c 57343)%N.
+Fixpoint no_surrogate_pair (s : str) : bool :=
+  match s with
+  | [] => true
+  | c :: r => match r with
+              | d :: _ => negb (is_high c && is_low d)
+              | [] => true
+              end && no_surrogate_pair r
+  end.
 Definition key_str_ok (k : key) : bool :=
   match k with
-  | KS s => match strip_prefix s_nprefix s with Some _ => false | None => true end
+  | KS s => match strip_prefix s_nprefix s with Some _ => false | None => true end && no_surrogate_pair s
   | KI _ => true
   | KB _ => false
   end.
 Fixpoint str_ok (v : pv) : bool :=
   match v with
+  | PStr s => no_surrogate_pair s
   | PList l | PTuple l => forallb str_ok l
   | PDict d => forallb (fun kv => key_str_ok (fst kv) && str_ok (snd kv)) d
-  | PObj _ fs => forallb (fun kv => key_str_ok (KS (fst kv)) && str_ok (snd kv)) fs
+  | PObj c fs => no_surrogate_pair c && forallb (fun kv => key_str_ok (KS (fst kv)) && str_ok (snd kv)) fs
   | _ => true
   end.
 
